@@ -19,6 +19,9 @@ def run(F, G, tier, seed):
     positions.run_gap(chk, F, CG)
     positions.run_nodepos(chk, F)
     positions.run_typepos(chk, F)
+    positions.run_poskey(chk, F)
+    from ..rules import routing
+    routing.run_wholetext(chk, F)
     chk.assume("scanner positions are monotone within a parse and YYLLOC_DEFAULT is the standard one (read from parser.y)")
     return chk.finish(
         "Decides necessary conditions of well-formed positions that are visible in the code shape: location ranges of "
